@@ -88,8 +88,70 @@ func UploadConfig(t *rapid.T) *telemetry.UploadConfig {
 		}
 		cfg.Programs = append(cfg.Programs, p)
 	}
+	if ConcatTwins && rapid.IntRange(0, 5).Draw(t, "concatTwin") == 0 {
+		// Two programs P and P+sep+"a": what P lists as "a"+sep+"b" and what the other program holds locally as
+		// "b" (not listed for it) coincide once program and name are joined by sep - likewise for stacks and
+		// versions. Approval is by the pair, whatever a lookup structure keys it by.
+		sep := rapid.SampledFrom([]string{"@", ":", "", "/", "|", "#", "-"}).Draw(t, "twinSep")
+		find := func(name string) *telemetry.ProgramConfig {
+			for _, p := range cfg.Programs {
+				if p.Name == name {
+					return p
+				}
+			}
+			p := &telemetry.ProgramConfig{Name: name, Versions: []string{"v1.2.4-pre.1"}}
+			cfg.Programs = append(cfg.Programs, p)
+			return p
+		}
+		p, q := find("cmd/go"), find("cmd/go"+sep+"a")
+		has := func(l []telemetry.CounterConfig, name string) bool {
+			for _, c := range l {
+				if c.Name == name {
+					return true
+				}
+			}
+			return false
+		}
+		if !has(p.Counters, "a"+sep+"b") {
+			p.Counters = append(p.Counters, telemetry.CounterConfig{Name: "a" + sep + "b", Rate: 1})
+		}
+		if !has(p.Stacks, "a"+sep+"stk") {
+			p.Stacks = append(p.Stacks, telemetry.CounterConfig{Name: "a" + sep + "stk", Rate: 1, Depth: 4})
+		}
+		p.Versions = dedup(append(p.Versions, "a"+sep+"v1.2.3"))
+		drop := func(l []telemetry.CounterConfig, name string) []telemetry.CounterConfig {
+			var out []telemetry.CounterConfig
+			for _, c := range l {
+				if c.Name != name {
+					out = append(out, c)
+				}
+			}
+			return out
+		}
+		q.Counters, q.Stacks = drop(q.Counters, "b"), drop(q.Stacks, "stk")
+		var vs []string
+		for _, v := range q.Versions {
+			if v != "v1.2.3" {
+				vs = append(vs, v)
+			}
+		}
+		if len(vs) == 0 {
+			vs = []string{"v1.2.4-pre.1"}
+		}
+		q.Versions = vs
+		twinProgram = q.Name
+	} else {
+		twinProgram = ""
+	}
 	return cfg
 }
+
+// ConcatTwins enables configurations with two programs whose (program, name) pairs coincide when joined by a
+// separator (see UploadConfig), and local files of the second program holding the names in question.
+var ConcatTwins = false
+
+// twinProgram is the second program of the configuration drawn last ("" if it has none).
+var twinProgram string
 
 // marker returns a unique, recognisable substring for an invented unapproved item.
 func marker(n *int) string {
@@ -315,6 +377,15 @@ func CountFiles(t *rapid.T, cfg *telemetry.UploadConfig, ends []time.Time, o Fil
 				}
 				f.Counts[name] = v
 			}
+			if twinProgram != "" && f.Program == twinProgram {
+				// the names that the other program's entries would cover if program and name were joined
+				if _, ok := f.Counts["b"]; !ok && rapid.Bool().Draw(t, "twinCounter") {
+					f.Counts["b"] = rapid.Uint64Range(1, 20).Draw(t, "twinVal")
+				}
+				if rapid.Bool().Draw(t, "twinStack") && !expanded["stk\nf:1"] {
+					f.Counts["stk\nf:1"] = 3
+				}
+			}
 			if len(f.Counts) == 0 {
 				f.Counts["a/b"] = 1
 			}
@@ -324,6 +395,7 @@ func CountFiles(t *rapid.T, cfg *telemetry.UploadConfig, ends []time.Time, o Fil
 			base += "@" + f.Version
 		}
 		base = fmt.Sprintf("%s-%s-%s-%s-%s", base, f.GoVersion, f.GOOS, f.GOARCH, f.Begin.Format("2006-01-02"))
+		base = strings.ReplaceAll(base, "/", "_") // (a version of a twin configuration can hold a slash)
 		// What a counter file means is in its metadata, not in its name: one name in eight says something else
 		// (another date, another program, no structure at all).
 		switch rapid.IntRange(0, 23).Draw(t, "oddFileName") {
